@@ -1142,12 +1142,16 @@ def unary(v: Variable, name, out=None):
         unit = parse_unit('rad')
         if name == 'asin':
             def f(x):
+                if hasattr(x, 'sym_fn'):
+                    return C.rfn('asin', x)
                 if not (bool(x >= -1) and bool(x <= 1)):
                     return C.NAN
                 sg = x.t.sign() if x.special is None else None
                 return C.rfn('asin', x, sign='0+' if sg in ('+', '0+', '0') else ('0-' if sg in ('-', '0-') else None))
         elif name == 'acos':
             def f(x):
+                if hasattr(x, 'sym_fn'):
+                    return C.rfn('acos', x)
                 if not (bool(x >= -1) and bool(x <= 1)):
                     return C.NAN
                 return C.rfn('acos', x)
